@@ -170,6 +170,13 @@ class Algebra:
             if self.isvec(b) or not is_const(b) or not b:
                 raise Unsupported('division by a non-constant')
             return self.vmul(a, P(1 / b[()]))
+        if k == 'ConditionalOperator':
+            c = self.value(e.child('cond'), env)
+            if self.isvec(c) or not is_const(c):
+                raise Unsupported('conditional on a symbolic value')
+            return self.value(e.child('then') if c else e.child('else'), env)
+        if k == 'CXXBoolLiteralExpr':
+            return P(1 if e.v else 0)
         if k == 'CallExpr':
             name = (e.callee or '').split('::')[-1]
             if name in ('sin', 'cos') and len(e.args) == 1:
@@ -245,6 +252,44 @@ class Algebra:
                 return mul(self.fatom('cos', arg), inner)
             return mul(mul(self.fatom('sin', arg), P(-1)), inner)
         return {}
+
+    # ---- trigonometric expansion: sin/cos of a sum of +-1 * angle atoms -> products of sin/cos of single angles
+    def expand(self, v):
+        if self.isvec(v):
+            return self.vec(self.expand(v[1]), self.expand(v[2]))
+        out = {}
+        for m, c in v.items():
+            term = {(): c}
+            for a in m:
+                term = mul(term, self._expand_atom(a))
+            out = add(out, term)
+        return out
+
+    def _expand_atom(self, a):
+        if a not in self.funcs:
+            return atom(a)
+        kind, arg = self.funcs[a]
+        terms = sorted(arg.items())
+        if any(len(m) != 1 or c not in (1, -1) for m, c in terms):
+            return atom(a)
+        if len(terms) == 1:
+            (m, c), = terms
+            base = self.fatom(kind, atom(m[0]))
+            if c == 1:
+                return base
+            return base if kind == 'cos' else mul(base, P(-1))
+        (m0, c0) = terms[0]
+        rest = dict(terms[1:])
+        first = {m0: c0}
+        sa, ca = self._expand_atom(self._name('sin', first)), self._expand_atom(self._name('cos', first))
+        sb, cb = self._expand_atom(self._name('sin', rest)), self._expand_atom(self._name('cos', rest))
+        if kind == 'sin':
+            return add(mul(sa, cb), mul(ca, sb))
+        return add(mul(ca, cb), mul(sa, sb), -1)
+
+    def _name(self, kind, arg):
+        v = self.fatom(kind, arg)
+        return next(iter(v))[0] if v and next(iter(v)) != () else None
 
     def equal(self, a, b):
         if self.isvec(a) != self.isvec(b):
